@@ -83,12 +83,18 @@ def run_stream(prop, res, sc, workdir):
                            "detail": {"log": out[-2000:]}})
         return info
     if os.path.exists(corpus):
-        cin = V.read_lines(corpus)
-        cin = [l for l in cin if l.strip() and not l.startswith("#")]
+        cin, cdesc, last = [], [], ""
+        for l in V.read_lines(corpus):
+            if l.startswith("#"):
+                last = l[1:].strip()      # a comment line describes the case that follows it
+            elif l.strip():
+                cin.append(l)
+                cdesc.append("corpus: " + last if last else "corpus")
+                last = ""
         rc, cout = V.run_h(["run", sc.name], inp="\n".join(cin) + "\n")
         couts = cout.split("\n")[:len(cin)]
         # prepend
-        for suf, extra in ((".in", cin), (".impl", couts), (".desc", ["corpus"] * len(cin))):
+        for suf, extra in ((".in", cin), (".impl", couts), (".desc", cdesc)):
             body = open(prefix + suf).read()
             with open(prefix + suf, "w") as f:
                 f.write("\n".join(extra) + "\n" + body)
@@ -308,6 +314,7 @@ reg(Prop("C02", "Playing a move produces the successor position the rules prescr
                   "attack tables = ray geometry is property C12 (Model/Att.v uses the geometric definitions; the streams run "
                   "the Go code, which uses the magic tables, against them)"],
          assumptions=["halfmove clock before the move in 0..32766 (int16 after fix cb6b25d; C02_clock states the wrap)",
-                      "C02_chain / C02_uci_legal carry the named hypothesis valid_step_statement (a legal move leads from a valid "
-                      "position to a valid one; a statement about Spec/Chess.v alone) and zob_ok z (64-bit Zobrist entries; proved for the generated tables)"],
+                      "chain theorems: Zobrist table entries below 2^64 (zob_ok; proved for the generated tables, Example C02_zob_real_ok); "
+                      "they re-establish valid_core (one king per side, side not to move not in check, consistent en-passant target), not the "
+                      "remaining conjuncts of valid"],
          design_ref="5/C02"))
